@@ -465,6 +465,21 @@ def realise_multirule(item):
             form = f * inner(u, v) * dx(metadata=one) + f * g * inner(u, v) * dx(metadata=two)
             if item["mr"]["onepoint"] == 3:
                 form = form + g * f * inner(grad(u), grad(v)) * dA
+    if item["mr"].get("samepoints"):
+        # two rules on byte-identical points with different weights (and the vertex scheme next to a custom rule
+        # sitting in the vertices): rules must be told apart by their weights too
+        pts, wts = CUSTOM[cell][var % len(CUSTOM[cell])]
+        w2 = list(reversed(wts)) if len(set(wts)) > 1 else [2 * w for w in wts]
+        other = {"quadrature_rule": "custom",
+                 "quadrature_points": np.array([[float(c) for c in p_] for p_ in pts], dtype=np.float64).reshape(len(pts), td),
+                 "quadrature_weights": np.array([float(w) for w in w2], dtype=np.float64)}
+        form = f * g * inner(u, v) * dA + g * inner(u, v) * dx(metadata=other)
+        if var % 2 == 1:
+            import basix
+            vx = basix.cell.geometry(basix.CellType[cell])
+            atv = {"quadrature_rule": "custom", "quadrature_points": np.array(vx, dtype=np.float64),
+                   "quadrature_weights": np.array([(k + 1) / 16 for k in range(len(vx))], dtype=np.float64)}
+            form = form + f * inner(u, v) * dV + g * inner(grad(u), grad(v)) * dx(metadata=atv)
     if item["mr"].get("samesize"):
         # the same integrand under two different rules with the same number of points (the second is the first
         # shrunk towards the origin): anything cached per rule *size* instead of per rule is shared wrongly
